@@ -32,7 +32,9 @@ RULE = ('four case kinds, each a generated layout + an operation history of dept
         'distinct = distinct (kind, layout, ops).  On top of the seeded random histories: exhaustive histories over 6-9 letter '
         'alphabets on 16 representative layouts, depth <= 2 in quick, depth <= 4 in thorough (<= 3 for the coercing struct and the class layouts).')
 ASSUMPTIONS = [
-    'omit_unchanged_within = 0 (every announceUpdate is delivered); single thread (accessLock/updateLock not exercised)',
+    'omit_unchanged_within = 0 (every announceUpdate is delivered); single thread except the cs cases: two real threads under harness/dsched.py, '
+    'accessLock/updateLock replaced by scheduler RLocks (a thread switch is possible at every lock acquisition, thread start and join only); '
+    'the model schedule of a cs case is the order in which the threads got the accessLock',
     'member / limit / target values are integers inside the generated ranges or one step outside; FloatEnum values are multiples of 0.5 '
     '(python float arithmetic on them is exact), explicit enum indices are strictly increasing',
     'user read_/write_ methods of the fake driver store exactly what they are given; they raise only as scripted (one error kind per '
@@ -139,7 +141,7 @@ def run_case(case):
     saved = generalConfig._config
     generalConfig.testinit(omit_unchanged_within=0)
     try:
-        return {'st': _run_st, 'fe': _run_fe, 'li': _run_li, 'co': _run_co}[case['kind']](case)
+        return {'st': _run_st, 'fe': _run_fe, 'li': _run_li, 'co': _run_co, 'mo': _run_mo, 'cs': _run_cs}[case['kind']](case)
     finally:
         generalConfig._config = saved
 
@@ -568,6 +570,181 @@ def _run_co(case):
             'members': dict(out.parameters['controlled_by'].datatype.export_datatype()['members'])}
 
 
+def _run_mo(case):
+    """a node with several output modules (real HasControlledBy / HasOutputModule classes), each with its own controllers"""
+    Out, Ctl = _co_classes()
+    outs_l = case['layout']['outs']          # [{'names': [...], 'kinds': [...]}, ...]
+    env = _Env()
+    outs = [env.add(Out, f'out{k}') for k in range(len(outs_l))]
+    ctl = [[env.add(Ctl[kd], nm, {'output_module': f'out{k}'}) for nm, kd in zip(o['names'], o['kinds'])]
+           for k, o in enumerate(outs_l)]
+    for o in outs:
+        env.init(o)
+    # registration: round robin over the outputs (order inside one output = the given order)
+    for j in range(max(len(c) for c in ctl)):
+        for cs in ctl:
+            if j < len(cs):
+                env.init(cs[j])
+    pid = {}
+    for k, o in enumerate(outs_l):
+        pid[(f'out{k}', 'controlled_by')] = 100 * k
+        pid[(f'out{k}', 'target')] = 100 * k + 1
+        for j, nm in enumerate(o['names']):
+            pid[(nm, 'control_active')] = 100 * k + 10 + 2 * j
+            pid[(nm, 'target')] = 100 * k + 11 + 2 * j
+
+    def snap():
+        res = []
+        for out, cs in zip(outs, ctl):
+            res += [[int(out.controlled_by)], [int(bool(c.control_active)) for c in cs], [_num(out.target)],
+                    [_num(c.target) for c in cs]]
+        return res
+
+    def members():
+        return [dict(out.parameters['controlled_by'].datatype.export_datatype()['members']) for out in outs]
+
+    def events():
+        res = []
+        for mod, p, v, e in env.take():
+            if e is not None:
+                res.append([99, [], e])
+            else:
+                res.append([pid.get((mod, p), 98), [_num(v)]])
+        return res
+
+    env.take()
+    init = snap()
+    steps = []
+    for op in case['ops']:
+        k, o = op[0], op[1]
+        out = outs[o]
+        if k == 'writeT':
+            c = ctl[o][op[2]]
+            r = _attempt(lambda: [_num(env.change(c, 'target', op[3]) if op[4] == 'c' else c.write_target(op[3]))])
+        elif k == 'writeO':
+            r = _attempt(lambda: [_num(env.change(out, 'target', op[2]) if op[3] == 'c' else out.write_target(op[2]))])
+        elif k == 'updT':
+            r = _attempt(lambda: out.update_target(outs_l[o]['names'][op[2]], op[3]) or [])
+        elif k == 'cfault':
+            for c, f in zip(ctl[o], op[2]):
+                c.fail = bool(f)
+            r = {'ok': []}
+        else:
+            raise ValueError(op)
+        steps.append({'res': r, 'events': events(), 'snap': snap(), 'by_name': [out.controlled_by.name for out in outs]})
+    return {'init': init, 'steps': steps, 'members': members()}
+
+
+class _RecLock:
+    """accessLock under the deterministic scheduler which records who got it (outermost acquisitions only)"""
+
+    def __init__(self, sched, order):
+        self.lock = sched.RLock()
+        self.lock.name = 'accessLock'
+        self.sched, self.order = sched, order
+
+    def acquire(self, *a, **k):
+        ok = self.lock.acquire(*a, **k)
+        if ok and self.lock.count == 1:
+            cur = self.sched.current
+            self.order.append(cur.name if cur is not None else '?')
+        return ok
+
+    def release(self):
+        self.lock.release()
+
+    def __enter__(self):
+        return self.acquire()
+
+    def __exit__(self, *a):
+        self.release()
+
+
+def _run_cs(case):
+    """two REAL threads on one module with a struct parameter without combined methods, one thread at a time under
+    harness/dsched.py: switch points at every acquisition of accessLock / updateLock (announceUpdate takes updateLock
+    first, so there is a switch point in front of every announceUpdate) and at thread start / join"""
+    from harness import dsched
+    from frappy.core import IntRange, Module, Parameter
+    from frappy.extparams import StructParam
+    from frappy.errors import HardwareError
+    L = case['layout']
+    n, prefix = L['n'], L['prefix']
+    names = [prefix + MEMBERS[i] for i in range(n)]
+    ns = {'st': StructParam('struct', {MEMBERS[i]: Parameter(MEMBERS[i], IntRange(ST_LO, ST_HI)) for i in range(n)},
+                            prefix, readonly=False)}
+    for i in range(n):
+        if L['mr'][i]:
+            ns['read_' + names[i]] = lambda self, i=i: self.hw[i]
+        if L['mw'][i]:
+            def wm(self, value, i=i):
+                self.hw[i] = int(value)
+                return self.hw[i]
+            ns['write_' + names[i]] = wm
+    cls = type('CsMod', (Module,), ns)
+    env = _Env()
+    m = env.add(cls, 'm')
+    m.hw = [0] * n
+    env.init(m)
+    pid = {'_st': 0}
+    for i, nm in enumerate(names):
+        pid['_' + nm] = i + 1
+
+    def sval(d):
+        return [_num(d[MEMBERS[i]]) for i in range(n)]
+
+    def snap():
+        return [sval(m.st), [_num(getattr(m, nm)) for nm in names],
+                [int(isinstance(m.parameters[p_].readerror, HardwareError)) for p_ in ['st'] + names]]
+
+    def todict(v):
+        return {MEMBERS[i]: v[i] for i in range(n)}
+
+    def do(op):
+        k = op[0]
+        if k == 'readS':
+            return sval(env.read(m, 'st') if op[1] == 'c' else m.read_st())
+        if k == 'readM':
+            nm = names[op[1]]
+            return [_num(env.read(m, nm) if op[2] == 'c' else getattr(m, 'read_' + nm)())]
+        if k == 'writeS':
+            return sval(env.change(m, 'st', todict(op[1])) if op[2] == 'c' else m.write_st(todict(op[1])))
+        if k == 'writeM':
+            nm = names[op[1]]
+            return [_num(env.change(m, nm, op[2]) if op[3] == 'c' else getattr(m, 'write_' + nm)(op[2]))]
+        raise ValueError(op)
+
+    env.take()
+    init = snap()
+    sched = dsched.Scheduler(dsched.Preempt(case['preempt']), max_steps=3000)
+    order = []
+    m.accessLock = _RecLock(sched, order)
+    m.updateLock = sched.RLock()
+    m.updateLock.name = 'updateLock'
+    results = {'A': [], 'B': []}
+
+    def prog(name, ops):
+        for op in ops:
+            results[name].append(_attempt(lambda: do(op)))
+
+    def main():
+        ta = sched.spawn(prog, 'A', 'A', case['pa'])
+        tb = sched.spawn(prog, 'B', 'B', case['pb'])
+        ta.join()
+        tb.join()
+
+    res = sched.run(main)
+    evs = []
+    for mod, p_, v, e in env.take():
+        if e is not None:
+            evs.append([99, [], e])
+        else:
+            evs.append([pid.get(p_, 98), sval(v) if p_ == '_st' else [_num(v)]])
+    return {'init': init, 'steps': [], 'final': snap(), 'events': evs, 'order': order, 'results': results,
+            'status': res.status, 'error': res.error, 'thread_errors': res.thread_errors, 'hw': list(m.hw),
+            'decisions': list(res.decisions), 'switches': [[t, lab] for t, lab, _ in res.trace]}
+
+
 # ------------------------------------------------------------------ encoding into Gallina
 def zl(xs):
     return gal.lst(list(xs), gal.z)
@@ -617,6 +794,11 @@ def enc_op(kind, op):
                 'writeRng': lambda: f'(Li.WriteRng {gal.z(op[1])} {gal.z(op[2])})',
                 'setMin': lambda: f'(Li.SetMin {gal.z(op[1])})', 'setMax': lambda: f'(Li.SetMax {gal.z(op[1])})',
                 'setLim': lambda: f'(Li.SetLim {gal.z(op[1])} {gal.z(op[2])})'}[k]()
+    if kind == 'mo':
+        inner = {'writeT': lambda: f'(Co.WriteT {gal.nat(op[2])} {gal.z(op[3])})', 'writeO': lambda: f'(Co.WriteO {gal.z(op[2])})',
+                 'updT': lambda: f'(Co.UpdT {gal.nat(op[2])} {gal.z(op[3])})',
+                 'cfault': lambda: f'(Co.CFault {gal.lst(op[2], gal.boolean)})'}[k]()
+        return f'({gal.nat(op[1])}, {inner})'
     return {'writeT': lambda: f'(Co.WriteT {gal.nat(op[1])} {gal.z(op[2])})', 'writeO': lambda: f'(Co.WriteO {gal.z(op[1])})',
             'updT': lambda: f'(Co.UpdT {gal.nat(op[1])} {gal.z(op[2])})',
             'cfault': lambda: f'(Co.CFault {gal.lst(op[1], gal.boolean)})'}[k]()
@@ -640,12 +822,41 @@ def enc_layout(kind, L):
                % (gal.boolean(c['acc']), gal.boolean(c['param']), gal.nat(c['user']), gal.boolean(c['min']),
                   gal.boolean(c['max']), gal.boolean(c['lim'])) for c in li_classes(L)]
         return ('{| Li.l_lo := %s; Li.l_hi := %s; Li.l_classes := [%s] |}' % (gal.z(L['lo']), gal.z(L['hi']), '; '.join(cls)))
+    if kind == 'mo':
+        return gal.lst(L['outs'], lambda o: gal.lst(o['kinds'], gal.nat))
     return gal.lst(L.get('kinds') or [0] * len(L['names']), gal.nat)
+
+
+def _enc_cs(case, obs):
+    if obs['status'] != 'ok' or obs['error'] or obs['thread_errors']:
+        raise ValueError(f'scheduler run not ok: {obs["status"]} {obs["error"]} {obs["thread_errors"]}')
+    if any('err' in r for rs in obs['results'].values() for r in rs):
+        raise ValueError(f'operation failed: {obs["results"]}')
+    # model schedule: the threads in the order in which the implementation's threads got the accessLock, three moves
+    # (acquire, first half, second half + release) each; a blocked thread's move would be a stutter
+    sched = []
+    for t in obs['order']:
+        sched += [t == 'B'] * 3
+    evs = '; '.join(f'({gal.nat(e[0])}, {zl(e[1])})' for e in obs['events'] if len(e) == 2)
+    if any(len(e) > 2 for e in obs['events']):
+        raise ValueError('error update from the implementation')
+    return ('(CaseCs %s [%s] [%s] %s %s %s [%s])'
+            % (enc_layout('st', case['layout']), '; '.join(enc_op('st', o) for o in case['pa']),
+               '; '.join(enc_op('st', o) for o in case['pb']), gal.lst(sched, gal.boolean),
+               gal.lst(obs['init'], zl), gal.lst(obs['final'], zl), evs))
 
 
 def encode(case, obs):
     kind = case['kind']
-    con = {'st': 'CaseSt', 'fe': 'CaseFe', 'li': 'CaseLi', 'co': 'CaseCo'}[kind]
+    if kind == 'cs':
+        return _enc_cs(case, obs)
+    con = {'st': 'CaseSt', 'fe': 'CaseFe', 'li': 'CaseLi', 'co': 'CaseCo', 'mo': 'CaseMo'}[kind]
+    if kind == 'mo':
+        for k, o in enumerate(case['layout']['outs']):
+            want = {'self': 0}
+            want.update({nm: j + 1 for j, nm in enumerate(o['names'])})
+            if obs['members'][k] != want:
+                raise ValueError(f'controlled_by members of out{k} {obs["members"][k]} != registration order {want}')
     if kind == 'co':
         # the model identifies a controller with its registration number: check the enum the implementation built
         want = {'self': 0}
@@ -843,6 +1054,51 @@ def oracle(case, obs):
                 j = ops[k][1]
                 if not snap[1][j] or any(a for i, a in enumerate(snap[1]) if i != j):
                     fail('single-controller', f'after op {k}: {names[j]} took over but control flags are {snap[1]}', k)
+    elif kind == 'mo':
+        # property text, per output: at most one of ITS controllers is marked as controlling and the output names
+        # exactly that one ('self' when none is)
+        outs_l = L['outs']
+        was_bad = [False] * len(outs_l)
+        for k in range(-1, len(steps)):
+            snap = obs['init'] if k < 0 else steps[k]['snap']
+            for o, ol in enumerate(outs_l):
+                names = ol['names']
+                by, acts = snap[4 * o][0], snap[4 * o + 1]
+                byname = {v: nm for nm, v in obs['members'][o].items()}.get(by)
+                active = [j for j, a in enumerate(acts) if a]
+                label = f'after op {k} ({ops[k] if k >= 0 else "init"}) out{o}'
+                what = None
+                if len(active) > 1:
+                    what = f'{label}: {[names[j] for j in active]} are all marked as controlling'
+                elif len(active) == 1 and byname != names[active[0]]:
+                    what = f'{label}: {names[active[0]]} is marked as controlling but the output names {byname}'
+                elif not active and byname != 'self':
+                    what = f'{label}: nobody is marked as controlling but the output names {byname}'
+                if what and not was_bad[o]:
+                    fail('single-controller', what, k, output=o, marked=active,
+                         touched_other_output=bool(k >= 0 and ops[k][1] != o))
+                was_bad[o] = bool(what)
+    elif kind == 'cs':
+        # property text at quiescence (both threads finished): struct and members agree member by member - on the module
+        # and in the update stream a client has seen
+        if obs['status'] != 'ok' or obs['error'] or obs['thread_errors']:
+            fail('concurrent-run', f'the two threads did not finish: {obs["status"]} {obs["error"]} {obs["thread_errors"]}', -1)
+        else:
+            st, mem = obs['final'][0], obs['final'][1]
+            stream = [list(obs['init'][0]), list(obs['init'][1])]
+            for e in obs['events']:
+                if len(e) == 2 and e[0] == 0:
+                    stream[0] = list(e[1])
+                elif len(e) == 2 and 1 <= e[0] <= L['n']:
+                    stream[1][e[0] - 1] = e[1][0]
+            for view, (a, b) in (('module', (st, mem)), ('stream', stream)):
+                bad = [i for i in range(L['n']) if a[i] != b[i]]
+                if bad:
+                    i = bad[0]
+                    fail('struct-agree', f'at quiescence [{view}]: struct member {MEMBERS[i]} is {a[i]} but parameter '
+                         f'{L["prefix"] + MEMBERS[i]} is {b[i]} (thread A {case["pa"]}, thread B {case["pb"]}, lock order '
+                         f'{obs["order"]}, preemption {case["preempt"]})', -1, view=view, concurrent=True)
+                    break
     for k, s in enumerate(steps):
         if any(len(e) > 2 for e in s['events']):
             fail('error-state', f'op {k} ({ops[k]}) produced an error update that no scripted fault explains', k)
@@ -932,6 +1188,10 @@ FINDING_CLASSIFIERS = {
 
 
 def nontrivial_key(case, obs):
+    if case['kind'] == 'cs':
+        if not obs.get('events'):
+            return None
+        return repr(('cs', case['layout'], case['pa'], case['pb'], obs.get('decisions')))
     if not any(s['events'] for s in obs['steps']):
         return None
     return repr((case['kind'], case['layout'], case['ops']))
@@ -939,12 +1199,22 @@ def nontrivial_key(case, obs):
 
 def outcome_labels(case, obs):
     labs = {case['kind']}
+    if case['kind'] == 'cs':
+        labs.add('cs:lock-order:' + ''.join(obs.get('order', [])))
+        # did a thread get the lock while the other one was between two of its operations / wait for it
+        sw = obs.get('switches', [])
+        if any(a[0] != b[0] and 'A' in (a[0], b[0]) and 'B' in (a[0], b[0]) for a, b in zip(sw, sw[1:])):
+            labs.add('cs:interleaved')
+        return sorted(labs)
     for op, s in zip(case['ops'], obs['steps']):
         labs.add(f'{case["kind"]}:{op[0]}:' + ('ok' if 'ok' in s['res'] else s['res']['err']))
     return sorted(labs)
 
 
 def sample_repr(case, obs):
+    if case['kind'] == 'cs':
+        return {'case': case, 'init': obs['init'], 'final': obs['final'], 'events': obs['events'], 'order': obs['order'],
+                'decisions': obs['decisions'], 'results': obs['results']}
     return {'case': case, 'init': obs['init'], 'steps': [{'res': s['res'], 'events': s['events'], 'snap': s['snap']}
                                                           for s in obs['steps'][:4]]}
 
@@ -1206,8 +1476,62 @@ def gen_co_op(rng, L):
     return ['updT', rng.randrange(n), rng.randint(-9, 9)]
 
 
+MO_NAMES = ['a1', 'zz', 'b1', 'loop', 'm2', 'c3', 'aa', 'x9']
+
+
+def gen_mo_layout(rng):
+    names = rng.sample(MO_NAMES, len(MO_NAMES))
+    outs = []
+    for _ in range(rng.choice([2, 2, 2, 3])):
+        k = rng.randint(1, 2)
+        outs.append({'names': [names.pop() for _ in range(k)], 'kinds': [rng.choice([0, 0, 1]) for _ in range(k)]})
+    return {'outs': outs}
+
+
+def gen_mo_op(rng, L):
+    o = rng.randrange(len(L['outs']))
+    n = len(L['outs'][o]['names'])
+    k = rng.choice(['writeT', 'writeT', 'writeT', 'writeO', 'writeO', 'updT'])
+    if k == 'writeT':
+        return ['writeT', o, rng.randrange(n), rng.randint(-9, 9), _by(rng)]
+    if k == 'writeO':
+        return ['writeO', o, rng.randint(-9, 9), _by(rng)]
+    return ['updT', o, rng.randrange(n), rng.randint(-9, 9)]
+
+
+def cs_cases(rng, count, max_step=24):
+    """two-thread cases: thread A reads (struct / member), thread B writes (member / struct); ONE preemption at a step
+    chosen over the whole run (the run is non-preemptive otherwise), so every switch point is hit by some case"""
+    out = []
+    while len(out) < count:
+        n = rng.randint(1, 3)
+        L = {'n': n, 'prefix': rng.choice(['', 'p_']), 'rw': False, 'sr': False, 'sw': False,
+             'mr': [True] * n, 'mw': [rng.random() < 0.8 for _ in range(n)]}
+        pa = [rng.choice([['readS', _by(rng)], ['readS', 'd'], ['readM', rng.randrange(n), _by(rng)]])
+              for _ in range(rng.randint(1, 2))]
+        pb = [rng.choice([['writeM', rng.randrange(n), rng.randint(1, 9), _by(rng)],
+                          ['writeM', rng.randrange(n), rng.randint(1, 9), 'd'],
+                          ['writeS', [rng.randint(1, 9) for _ in range(n)], _by(rng)]])
+              for _ in range(rng.randint(1, 2))]
+        if rng.random() < 0.3:
+            pa, pb = pb, pa
+        for step in rng.sample(range(max_step), min(max_step, 6)):
+            out.append({'kind': 'cs', 'layout': L, 'ops': [], 'pa': pa, 'pb': pb, 'preempt': {str(step): rng.randrange(3)}})
+    return out[:count]
+
+
+def cs_systematic(max_step=24):
+    """read_st against write_a: a preemption at EVERY step of the run, each enabled thread"""
+    for n, pa, pb in ((2, [['readS', 'd']], [['writeM', 0, 9, 'd']]), (3, [['readS', 'c']], [['writeM', 1, 7, 'c']]),
+                      (1, [['readS', 'd'], ['readM', 0, 'd']], [['writeS', [5], 'c']])):
+        L = {'n': n, 'prefix': 'p_', 'rw': False, 'sr': False, 'sw': False, 'mr': [True] * n, 'mw': [True] * n}
+        for step in range(max_step):
+            for idx in (0, 1):
+                yield {'kind': 'cs', 'layout': L, 'ops': [], 'pa': pa, 'pb': pb, 'preempt': {str(step): idx}}
+
+
 GEN = {'st': (gen_st_layout, gen_st_op), 'fe': (gen_fe_layout, gen_fe_op), 'li': (gen_li_layout, gen_li_op),
-       'co': (gen_co_layout, gen_co_op)}
+       'co': (gen_co_layout, gen_co_op), 'mo': (gen_mo_layout, gen_mo_op)}
 
 
 def gen_ops(rng, kind, L, count):
@@ -1321,11 +1645,20 @@ def gen_cases(seed, tier):
     cases = []
     for kind in ('st', 'fe', 'li', 'co'):
         cases.extend(rand_case(rng, kind) for _ in range(per_kind))
+    cases.extend(rand_case(rng, 'mo') for _ in range(per_kind * 2 // 5))
+    cases.extend(cs_systematic())
+    cases.extend(cs_cases(rng, per_kind // 5))
     cases.extend(exhaustive_cases(2 if tier == 'quick' else 4))
     return cases
 
 
 def shrink(case):
+    if case['kind'] == 'cs':
+        for key in ('pa', 'pb'):
+            for i in range(len(case[key]) - 1, -1, -1):
+                if len(case[key]) > 1:
+                    yield dict(case, **{key: case[key][:i] + case[key][i + 1:]})
+        return
     ops = case['ops']
     for i in range(len(ops) - 1, -1, -1):
         yield dict(case, ops=ops[:i] + ops[i + 1:])
@@ -1337,6 +1670,8 @@ def search_cases(seed, mismatching):
     rng = random.Random(seed * 7919 + 18)
     out = []
     for c in mismatching[:50]:
+        if c['kind'] == 'cs':
+            continue
         ops = c['ops']
         for i in range(1, len(ops) + 1):
             out.append(dict(c, ops=ops[:i]))
@@ -1344,6 +1679,9 @@ def search_cases(seed, mismatching):
             out.append(dict(c, ops=ops[:i] + ops[i + 1:]))
         for _ in range(40):
             out.append(dict(c, ops=gen_ops(rng, c['kind'], c['layout'], rng.randint(1, 8))))
+    out.extend(cs_systematic())
+    out.extend(rand_case(rng, 'mo') for _ in range(3000))
+    out.extend(cs_cases(rng, 1500))
     for kind in ('st', 'fe', 'li', 'co'):
         out.extend(rand_case(rng, kind) for _ in range(4000))
     out.extend(exhaustive_cases(3))
